@@ -119,6 +119,16 @@ async def aio_process(self):
         tap("adopted", self.config.x)
     return p
 C.CommandLineJob.aio_process = aio_process
+import experimaestro.scheduler.base as B
+_submit = B.Scheduler.aio_submit
+async def aio_submit(self, job):
+    try:
+        return await _submit(self, job)
+    except BaseException as e:
+        if type(e).__name__ != "CancelledError":
+            tap("aio_submit-raised", job.config.x, type(e).__name__, str(e)[:120])
+        raise
+B.Scheduler.aio_submit = aio_submit
 _start = LOC.LocalProcessBuilder.start
 def start(self, *a, **k):
     p = _start(self, *a, **k)
@@ -129,6 +139,17 @@ def start(self, *a, **k):
             time.sleep(0.05)
     return p
 LOC.LocalProcessBuilder.start = start
+class _Json:
+    # the `json` name of commandline.py only: die between `pidpath.open("w")` and the write of its content
+    def __getattr__(self, k):
+        return getattr(json, k)
+    def dump(self, obj, fp, *a, **k):
+        if run == "1" and case["phase"] == "mid-pidwrite" and str(getattr(fp, "name", "")).endswith(".pid"):
+            (ws / "pid_opened").write_text(str(obj.get("pid")))
+            while True:
+                time.sleep(0.05)
+        return json.dump(obj, fp, *a, **k)
+C.json = _Json()
 
 final = {"error": None}
 try:
@@ -142,6 +163,7 @@ try:
                 token(1, t)
             outs.append(t.submit())
             tasks.append(t)
+        (ws / f"ids.{run}.json").write_text(json.dumps({str(t.x): t.__xpm__.identifier.all.hex() for t in tasks}))
         (ws / f"submitted.{run}").touch()
         xp.wait()
 except BaseException as e:
@@ -248,7 +270,7 @@ def prepare(root: Path, case):
 # ------------------------------------------------------------------------------------------ restart
 
 
-def run_restart_case(case, timeout=25):
+def run_restart_case(case, timeout=60):
     root = Path(tempfile.mkdtemp(prefix="xv-c11-"))
     obs = {"id": case["id"], "error": None}
     procs = []
@@ -287,6 +309,8 @@ def run_restart_case(case, timeout=25):
             time.sleep(case.get("delay", 0.0))
         elif phase == "mid-launch":
             ok = wait_for(lambda: (ws / "spawned").exists(), timeout)
+        elif phase == "mid-pidwrite":
+            ok = wait_for(lambda: (ws / "pid_opened").exists(), timeout)
         obs["rendezvous"] = ok
         obs["t_phase"] = round(time.time() - t0, 2)
         os.kill(p1.pid, sig)
@@ -308,6 +332,9 @@ def run_restart_case(case, timeout=25):
         obs["ended_before_kill"] = sorted(x for k, x, _, t in lines if k == "end" and t <= t_kill)
         if phase == "mid-launch" and (ws / "spawned").exists():
             obs["orphan_pid_alive"] = pid_alive(int((ws / "spawned").read_text()))
+        if phase == "mid-pidwrite" and (ws / "pid_opened").exists():
+            obs["orphan_pid_alive"] = pid_alive(int((ws / "pid_opened").read_text()))
+            obs["pid_file_sizes"] = [pf.stat().st_size for pf in ws.glob("jobs/*/*/*.pid")]
         if case.get("finish_before_restart"):
             # the surviving job processes end before the experiment is run again
             for x in open_bodies:
@@ -315,6 +342,19 @@ def run_restart_case(case, timeout=25):
             wait_for(lambda: not any(pid_alive(pid) for pid in open_bodies.values()), timeout)
             time.sleep(0.3)
             obs["finished_before_restart"] = sorted(open_bodies)
+        # what the restarted scheduler will find: pid files that name a live process
+        ids = json.loads((ws / "ids.1.json").read_text()) if (ws / "ids.1.json").exists() else {}
+        live = []
+        for x, ident in ids.items():
+            for pf in ws.glob(f"jobs/*/{ident}/*.pid"):
+                try:
+                    if pid_alive(json.loads(pf.read_text())["pid"]):
+                        live.append(int(x))
+                except Exception:
+                    pass
+        obs["live_at_restart"] = sorted(live)
+        tokdir0 = ws / "xpmwork" / "tokens" / "xvtok.counter"
+        obs["token_files_at_restart"] = len(list(tokdir0.glob("*.token"))) if tokdir0.exists() else 0
         # ---- second run of the same experiment
         p2 = subprocess.Popen(cmd + ["2"], env=env, stdout=subprocess.DEVNULL, stderr=open(root / "err2", "w"), cwd=str(root))
         procs.append(p2)
@@ -337,13 +377,10 @@ def run_restart_case(case, timeout=25):
         time.sleep(0.3)
         for x in xs:
             (ws / f"gate.{x}").touch()
-        try:
-            obs["rc2"] = p2.wait(timeout=timeout)
-        except subprocess.TimeoutExpired:
-            obs["rc2"] = "timeout"
+        obs["rc2"] = wait_or_hang(p2, log, t_quiet=case.get("t_quiet", 12), t_max=case.get("t_max", 180))
+        if obs["rc2"] == "timeout":
             p2.kill()
             p2.wait()
-        # leftovers of a failed case must not outlive it
         lines = read_log(log)
         obs["log"] = [[k, x, pid] for k, x, pid, _ in lines]
         obs["intervals"] = lines_to_intervals(lines)
@@ -356,8 +393,11 @@ def run_restart_case(case, timeout=25):
         tp = taps()
         obs["tap"] = {"adopted2": sorted(t[3] for t in tp if t[0] == "2" and t[2] == "adopted"),
                       "launched2": sorted(t[3] for t in tp if t[0] == "2" and t[2] == "launched"),
-                      "launched1": sorted(t[3] for t in tp if t[0] == "1" and t[2] == "launched")}
-        obs["stderr2"] = (root / "err2").read_text()[-600:] if obs.get("rc2") not in (0,) else ""
+                      "launched1": sorted(t[3] for t in tp if t[0] == "1" and t[2] == "launched"),
+                      "raised2": sorted({f"{t[4]}: {t[5]}" for t in tp if t[0] == "2" and t[2] == "aio_submit-raised"})}
+        e2 = (root / "err2").read_text()
+        obs["stderr2"] = e2[-600:] if obs.get("rc2") not in (0,) else ""
+        obs["thread_errors2"] = sorted({l.strip()[:100] for l in e2.splitlines() if l.startswith(("AssertionError", "json.decoder", "Exception in thread"))})
         obs["wall"] = round(time.time() - t0, 2)
     except Exception as e:
         obs["error"] = f"{type(e).__name__}: {e}"
@@ -377,6 +417,38 @@ def run_restart_case(case, timeout=25):
             pass
         shutil.rmtree(root, ignore_errors=True)
     return obs
+
+
+def wait_or_hang(p, log, t_quiet, t_max):
+    """exit status of `p`, or "timeout" once nothing has happened for `t_quiet` seconds (no job process of the case
+    alive, task log unchanged) — a slow machine is not a hang"""
+    import psutil
+    t0 = time.time()
+    last_change = time.time()
+    size = -1
+    while True:
+        try:
+            return p.wait(timeout=0.5)
+        except subprocess.TimeoutExpired:
+            pass
+        now = time.time()
+        try:
+            sz = Path(log).stat().st_size if Path(log).exists() else 0
+        except OSError:
+            sz = size
+        busy = False
+        try:
+            busy = bool(psutil.Process(p.pid).children(recursive=True))
+        except Exception:
+            pass
+        for _, _, pid, _ in read_log(log):
+            if pid_alive(pid):
+                busy = True
+        if sz != size or busy:
+            size = sz
+            last_change = now
+        if now - last_change > t_quiet or now - t0 > t_max:
+            return "timeout"
 
 
 def lines_to_intervals(lines):
